@@ -59,6 +59,7 @@ Frames(id, n) ==
              ELSE {})
 
 Send(id, n) == /\ Len(sent) < MaxFrames /\ bad = NoBad
+               /\ VLen(id) + n <= Max            \* the sender's side of the protocol maximum (id plus payload)
                /\ \E f \in Frames(id, n) : wire' = Append(wire, f)
                /\ sent' = Append(sent, <<id, n>>)
                /\ UNCHANGED <<thr, recv, bad>>
@@ -92,7 +93,7 @@ Emit == EmitJson => PrintT(ToJson([thr |-> thr, wire |-> wire, nsent |-> Len(sen
 \* constant sets for the configurations (negative numbers cannot be written in a .cfg)
 MC_Thrs == {-1, 0, 1, 64, 256}
 MC_Ids == {0, 127, 128, -1, 2147483647}
-MC_Sizes == {0, 1, 62, 63, 64, 65, 127, 128, 255, 256, 257, 16383, 16384, 2097146, 2097147}
+MC_Sizes == {0, 1, 62, 63, 64, 65, 127, 128, 255, 256, 257, 16383, 16384, 2097146, 2097147, 2097150, 2097151}
 MC_BadPlen == {-1, 0, 1, 2, 5, 6, 70, 2097160, 2097170}
 MC_BadDlen == {-1, -2147483647, 0, 1, 4, 5, 63, 64, 255, 256, 2097152, 2097158, 2147483647}
 ST_Thrs == {-1, 0, 64}
